@@ -273,8 +273,8 @@ theorem sound_ty (cfg : DecCfg) : ∀ (t : Ty) (tlv : TLV) (v : Val),
   | .any, tlv, v, _, h => by
       simp only [decTy] at h
       split at h
-      · simp at h
       · simp only [Except.ok.injEq] at h; subst h; rfl
+      · simp at h
   | .prim p, tlv, v, _, h => by
       simp only [decTy] at h
       split at h
@@ -370,7 +370,13 @@ theorem sound_body (cfg : DecCfg) : ∀ (t : Ty) (tlv : TLV) (v : Val),
         | [], h => simp [decBody] at h
         | _ :: _ :: _, h => simp [decBody] at h
   | .any, tlv, v, _, h => by
-      cases tlv <;> simp only [decBody, Except.ok.injEq] at h <;> subst h <;> rfl
+      cases tlv with
+      | prim hd tg c => simp only [decBody, Except.ok.injEq] at h; subst h; rfl
+      | cons hd tg i cs =>
+        simp only [decBody] at h
+        split at h
+        · simp only [Except.ok.injEq] at h; subst h; rfl
+        · simp at h
 theorem sound_alt (cfg : DecCfg) : ∀ (fs : Fields) (i : Nat) (tlv : TLV) (v : Val),
     Fields.WF fs = true → decAlt cfg fs i tlv = .ok v →
     ∃ j w, v = .choice (i + j) w ∧ HasAlt fs j w = true
